@@ -49,6 +49,46 @@ CHECKS = {
             "partition and union-multiset clauses are evaluated on evo's own output.",
             "unique stamps / unique poses identify kept poses; 1e-9*scale band at inexact thresholds",
             "DESIGN.md §3 C11"),
+    "C01": ("exploration", "runtime contract on APE.process_data + evo_ape runs vs independent reference pipeline",
+            "L1: every real APE.process_data call on generated pairs (hostile relative angles, UTM "
+            "offsets, both storage modes, 7 relations) is compared value by value with an own "
+            "implementation of the definition, plus swap / common-motion / coincidence laws and "
+            "refusal of unequal lengths. L3: evo_ape is run in-process on generated TUM/KITTI/EuRoC "
+            "files under random option combinations; the archive is read back with an own reader and "
+            "compared with the definition on the stored processed pair and with an independent "
+            "pipeline (own parsers, selection rules, Horn alignment) applied to the input files; "
+            "refusals must agree in exception class.",
+            "zipfile/json/np.load read archives; threshold-ambiguous cases are counted and skipped",
+            "DESIGN.md §3 C01"),
+    "C02": ("exploration", "runtime contract on RPE.process_data (pairs recorded at id_pairs_from_delta) + evo_rpe runs vs reference pipeline",
+            "The pairs evo selected are recorded by a wrapper on id_pairs_from_delta; values and "
+            "pair-end indices are compared with the definition over exactly those pairs (incl. "
+            "zero-distance skipping), independent rigid motions of reference and estimate must not "
+            "change values, a moved copy must give zero, unequal lengths must be refused; evo_rpe "
+            "runs are captured at the RPE.process_data boundary and compared with the independent "
+            "pipeline and the definition.", "pair selection correctness is C10's", "DESIGN.md §3 C02"),
+    "C12": ("exploration", "statistics/unit contracts on PE + companion-array oracle over real evo_ape/evo_rpe archives",
+            "Statistics of the real PE methods are compared with math.fsum-based definitions and "
+            "the order relations on arrays of 1..1e6 values; all 100 ordered unit pairs are "
+            "converted (exact factors within 4 ulp, refusals leave bytes and unit untouched); every "
+            "archive of the C01/C02 CLI workloads is checked for companion-array length and "
+            "reference to the right pose, stored RPE trajectories, stored statistics and title/label.",
+            "companion arrays tied to the trajectories stored in the same result", "DESIGN.md §3 C12"),
+    "C14": ("exploration", "runtime contract on PosePath3D.project with planar-input detector and 1-degree heading grids",
+            "project() is called on generated planar and general trajectories for the three planes "
+            "(every heading degree in (-180,180], gimbal-lock attitudes, in-plane positions with 3-D "
+            "attitudes, tiny offsets); out-of-plane zero, in-plane bits, rotation about the normal, "
+            "count/stamps, planar-pose idempotence and refusal of a second projection are evaluated; "
+            "the xz heading fold is a listed known finding keyed by mechanism.",
+            "heading = signed angle about the plane normal", "DESIGN.md §3 C14"),
+    "C08": ("exploration", "class invariant + shadow trajectory in lock-step over operation histories with partial reads",
+            "Bounded-exhaustive histories (depth 2 quick / 3 thorough over a 13-operation alphabet x "
+            "read-after choice x construction mode) and random histories to length 15 on 1..200 poses "
+            "are executed on the real objects while an independent model applies each operation's "
+            "documented effect; partially read views after each step, all views, derived quantities "
+            "and evo's check() at the end must agree.",
+            "repeated propagating transforms are bounded to a cumulated rounding amplification of 1e5",
+            "DESIGN.md §3 C08"),
     "C09": ("exploration", "runtime law monitors on the real Lie helpers (seeded hostile generators)",
             "Every group law of the statement is evaluated by a monitor on the real helpers for "
             "thousands of generated rotations/poses/similarities per run incl. angles within 1e-16 "
